@@ -2,6 +2,7 @@ import ClusterVerif.Spec.C04
 import ClusterVerif.Spec.C04Conc
 import ClusterVerif.Model.C04Rpc
 import ClusterVerif.Gen.C04
+import ClusterVerif.Gen.C04Sem
 import Driver.PinParse
 namespace CV.C04
 open CV CV.Parse CV.PinParse
@@ -180,6 +181,14 @@ def answer (ws : List String) : String :=
     let outRpc : Option Out := match k.rpc with
       | some call => rpcStepF Gen.rpcTable k.cfg k.pre call chosen k.fault
       | none => some (stepF k.cfg k.pre k.op chosen k.fault)
+    -- round 8b: without a fault the Cluster operation is RUN from the regenerated statement sequences of cluster.go
+    -- (Gen.semProgs: constructors, guards, early returns in source order); a statement of unknown shape = no answer = diff
+    let semOp : Option Op := match k.rpc with
+      | some call => rpcOp Gen.rpcTable call
+      | none => some k.op
+    let outRpc : Option Out := match k.fault, semOp with
+      | none, some op => Sem.stepSem Gen.semProgs k.cfg k.pre op chosen
+      | _, _ => outRpc
     let out := outRpc.getD (err k.pre)
     let reached := match k.fault with
       | some f => if f < (step k.cfg k.pre k.op chosen).log.length then "-fault" ++ toString f else ""
